@@ -245,6 +245,11 @@ def gen_value(rng, depth=3, hashable=False, allow=None, size=3):
 ORDER_GROUPS = ["int", "float", "str", "bytes", "inttuple", "intlist", "mixednum"]
 
 
+def weird_repr(n):
+    """repr of vp.Weird(n)"""
+    return [f"<Weird {n}>", f"Weird #{n}", f"weird={n}", f"Weird\n{n}"][n % 4]
+
+
 def gen_ordered(rng, n, group=None):
     """n values from one totally ordered group (bounds are only specified for those)."""
     g = group or rng.choice(ORDER_GROUPS)
@@ -342,7 +347,7 @@ def layout(t, rng: random.Random, handwritten=0.2, multiline=None, comments=True
     if k in ("bool", "none", "float", "complex", "enum", "cls", "flag", "weird", "ext"):
         e = expr(t)
         if k == "weird":
-            e = f"HasRepr(Weird, {('<Weird %d>' % p)!r})"
+            e = f"HasRepr(Weird, {weird_repr(p)!r})"
         if k == "ext":
             raise AssertionError("externals have no hand-written old text")
         if hw and k in ("bool", "float", "enum"):
